@@ -195,9 +195,19 @@ Definition abs7 (o : pyTimePoint) : ptp :=
         (abs_zone (s_time_zone o)) (s_truncated o) (ostr (s_truncated_property o))
         (s_num_expanded_year_digits o) (ostr (s_dump_format o)).
 
-Lemma hour_is_24 h :
-  opt_eqb Qeq_bool h (Some (inject_Z 24)) = match h with Some h0 => qeqb h0 24 | None => false end.
+Lemma Qeq_bool_sym a b : Qeq_bool a b = Qeq_bool b a.
+Proof.
+  destruct (Qeq_bool a b) eqn:E, (Qeq_bool b a) eqn:F; try reflexivity.
+  - apply Qeq_bool_iff in E. symmetry in E. apply Qeq_bool_iff in E. congruence.
+  - apply Qeq_bool_iff in F. symmetry in F. apply Qeq_bool_iff in F. congruence.
+Qed.
+(* `x == number` on a None-able slot, whichever side the slot is written on *)
+Lemma oqeq_some_r h q :
+  opt_eqb Qeq_bool h (Some q) = match h with Some h0 => qeqb h0 q | None => false end.
 Proof. destruct h; reflexivity. Qed.
+Lemma oqeq_some_l h q :
+  opt_eqb Qeq_bool (Some q) h = match h with Some h0 => qeqb h0 q | None => false end.
+Proof. destruct h; [apply Qeq_bool_sym|reflexivity]. Qed.
 
 Lemma gen7_check_bounds md o :
   py_TimePoint__check_bounds (cal7_of md) o =
@@ -211,8 +221,8 @@ Proof.
   unfold py_TimePoint__check_bounds.
   cbn [s_year s_month_of_year s_day_of_month s_day_of_year s_week_of_year s_day_of_week s_hour_of_day
        s_minute_of_hour s_second_of_minute].
-  cal7 md. consts7.
-  rewrite hour_is_24.
+  cbv zeta. cal7 md. consts7.
+  rewrite ?oqeq_some_r, ?oqeq_some_l. change (inject_Z 24) with 24%Q.
   destruct mo as [mo|], y as [y|]; mstep; cbn [negb];
     rewrite ?dim_int, ?dim_leap, ?gen_get_weeks_in_year_eq, ?gen_get_days_in_year_eq;
     repeat (first [helper_step | crunch_step]; mstep);
@@ -395,7 +405,7 @@ Ltac spine t k :=
   | _ => k t
   end.
 Ltac simp7 :=
-  rewrite ?Bool.andb_negb_r, <- ?Bool.negb_orb;
+  rewrite ?Bool.andb_negb_r, ?Bool.orb_negb_r, <- ?Bool.negb_orb;
   repeat match goal with H : tprop_ok _ = _ |- _ => unfold tprop_ok in H; rewrite ?H end;
   repeat match goal with |- context [truthy_opt truthy_Z ?x] => change (truthy_opt truthy_Z x) with (truthy x) end;
   cbv beta iota zeta delta [ebind need is_none lift2 pbind negb andb option_map
@@ -452,13 +462,20 @@ Ltac fields7 :=
        s_week_of_year s_hour_of_day s_minute_of_hour s_second_of_minute s_truncated s_truncated_property
        s_truncated_dump_format s_dump_format s_time_zone];
   repeat split; field_tac.
+(* a leaf of the symbolic run: the code is a value.  When the model is still undecided (the code did
+   not need a test the model makes) the model's own spine is case-split until it is a value too *)
+Ltac on_model_atom x :=
+  first [ is_var x; destruct x
+        | match goal with H : x = _ |- _ => rewrite H end
+        | destruct x eqn:? ].
 Ltac leaf7 :=
   cbv beta iota delta [oq_int] in *;
   lazymatch goal with
   | |- init_rel (Ok _) (POk _) _ _ _ _ => cbn [init_rel]; eexists; split; [reflexivity|]; fields7
   | |- init_rel (Raise BadInputError) (PErr EBadInput) _ _ _ _ => reflexivity
-  | |- init_rel _ _ _ _ _ _ =>
-      unfold init_rel; repeat (crunch_step; simp7); try reflexivity; try discriminate
+  | |- init_rel _ (POk _) _ _ _ _ => fail "the code refuses what the model accepts"
+  | |- init_rel _ (PErr _) _ _ _ _ => fail "the code accepts what the model refuses"
+  | |- init_rel _ ?m _ _ _ _ => spine m on_model_atom; simp7; leaf7
   | |- check_bounds _ _ = check_bounds _ _ => apply check_bounds_ext; fields7
   end.
 
